@@ -339,7 +339,7 @@ fn run_family(f: &Family, total: &Mutex<Acc>) {
 
 /// All trees with <= 1 operator (wrappers everywhere), in chunks; each chunk goes through one
 /// interpreter sequentially and is compared with fresh-interpreter evaluation.
-fn session_pass(total: &Mutex<Acc>) -> u64 {
+fn session_pass(total: &Mutex<Acc>, prelude: &[&str]) -> u64 {
     let leaves = full_leaves();
     let mut texts: Vec<String> = vec![];
     let shp = shapes(1);
@@ -358,8 +358,14 @@ fn session_pass(total: &Mutex<Acc>) -> u64 {
     texts.par_chunks(3000).for_each(|chunk| {
         let mut s = Sess::new();
         let mut none = std::iter::empty();
+        let mut hist = vec![];
+        // optional prelude: a program that DEFines functions named like the builtins has run
+        for l in prelude {
+            let _ = s.run_line(l, &mut none, 100);
+            hist.push(Ev::LineToIdle(l.to_string()));
+        }
         let _ = s.run_line(PRESET, &mut none, 100);
-        let mut hist = vec![Ev::LineToIdle(PRESET.into())];
+        hist.push(Ev::LineToIdle(PRESET.into()));
         for t in chunk {
             let line = format!("PRINT {}", t);
             s.recs.clear();
@@ -459,7 +465,7 @@ pub fn run(thorough: bool) -> Report {
     // Session pass: the same expressions evaluated one after the other in long-lived
     // interpreters (non-initial states: hundreds of earlier successes and failures) must
     // give what a fresh interpreter gives.
-    let session = session_pass(&total);
+    let session = session_pass(&total, &[]) + session_pass(&total, &["10 DEF ABS(X)=X*2: DEF INT(N)=N+100", "RUN"]);
     let acc = total.into_inner().unwrap();
     if acc.errors.len() < 2 || acc.values.len() < 10 {
         machinery("vacuous: too few distinct outcomes");
